@@ -258,6 +258,12 @@ def _history(X, cfg):
                     f.server_conn.via = ("http", (PROXIES[1], PROXY_PORT))
                 elif act == "via-none":
                     f.server_conn.via = None
+                elif act == "replace-via2":
+                    # examples/contrib/change_upstream_proxy.py: an open connection cannot be modified, so the addon
+                    # replaces flow.server_conn by a fresh Server that names the other proxy
+                    from mitmproxy.connection import Server as _Server
+                    f.server_conn = _Server(address=f.server_conn.address)
+                    f.server_conn.via = ("http", (PROXIES[1], PROXY_PORT))
                 if act != "none":
                     X.reach("addon-rewrite")
             except RuntimeError:
@@ -463,11 +469,12 @@ def _dests(hosts=HOSTS, ports=PORTS, schemes=("http", "https")):
 def obligations(tier):
     q = tier == "quick"
     full_addon = ["none", "host", "port", "scheme", "via1", "via-none"] if q else ["none", "host", "via1"]
+    up_addon = full_addon + ["replace-via2"]
     origin_q = ["respond", "respond-close"]
     origin_all = ["respond", "respond-close", "close"]
     cfgs = {
         "history-h1-regular": dict(k=2 if q else 3, modes=["regular"], dests=_dests(), addon=full_addon, open=["ok", "error"], origin=origin_q),
-        "history-h1-upstream": dict(k=2 if q else 3, modes=["upstream"], dests=_dests(), addon=full_addon, open=["ok", "error"], origin=origin_q),
+        "history-h1-upstream": dict(k=2 if q else 3, modes=["upstream"], dests=_dests(), addon=up_addon, open=["ok", "error"], origin=origin_q),
         "history-h1-transparent": dict(k=3, modes=["transparent"], preconnected=[False, True], dests=[],
                                        addon=["none", "host", "port", "scheme", "via1", "via2", "via-none"], open=["ok", "error"], origin=origin_all),
         "history-h1-deep": dict(k=3 if q else 5, modes=["regular", "upstream"], dests=_dests(schemes=("http",)) if q else _dests(ports=PORTS[:1], schemes=("http",)),
